@@ -1464,6 +1464,12 @@ orc_compiler_get_constant (OrcCompiler *compiler, int size, int value)
     }
   }
   if (i == compiler->n_constants) {
+    if (compiler->n_constants >= ORC_N_CONSTANTS) {
+      /* the pool is full: load the value without remembering it */
+      tmp = orc_compiler_get_temp_reg (compiler);
+      orc_compiler_load_constant (compiler, tmp, size, value);
+      return tmp;
+    }
     compiler->n_constants++;
     compiler->constants[i].value = v;
     compiler->constants[i].alloc_reg = 0;
@@ -1489,9 +1495,16 @@ orc_compiler_get_constant_long (OrcCompiler *compiler,
 
   tmp = orc_compiler_try_get_constant_long (compiler, a, b, c, d);
   if (tmp == ORC_REG_INVALID) {
+    OrcConstant constant = { 0 };
+
+    /* not necessarily in the pool, which may be full */
+    constant.full_value[0] = a;
+    constant.full_value[1] = b;
+    constant.full_value[2] = c;
+    constant.full_value[3] = d;
+    constant.is_long = TRUE;
     tmp = orc_compiler_get_temp_reg (compiler);
-    orc_compiler_load_constant_long (compiler, tmp,
-        &compiler->constants[compiler->n_constants - 1]);
+    orc_compiler_load_constant_long (compiler, tmp, &constant);
   }
   return tmp;
 }
@@ -1512,6 +1525,9 @@ orc_compiler_try_get_constant_long (OrcCompiler *compiler,
     }
   }
   if (i == compiler->n_constants) {
+    if (compiler->n_constants >= ORC_N_CONSTANTS) {
+      return ORC_REG_INVALID;
+    }
     compiler->n_constants++;
     compiler->constants[i].full_value[0] = a;
     compiler->constants[i].full_value[1] = b;
